@@ -357,6 +357,23 @@ Proof. intros Hlr Hcr. pose proof (lr_klo _ _ _ _ _ _ Hlr) as [Hk1 Hk2].
         destruct (lr_tl _ _ _ _ _ _ Hlr) as (bits & Hbt & Hbits). pose proof (pow2_pos bits ltac:(lia)). lia. Qed.
 
 (* ---- one Image::poll ---- *)
+(* C05's sel_spec without the bound on the term count: the partition index is (position / term length) mod 3 whatever the
+   term count is - also at the very end of the position space, term count 2^31 *)
+Lemma sel_spec_any l bits pos :
+  l_tlen l = 2 ^ bits -> 0 <= bits <= 31 -> 0 <= pos ->
+  sel l pos = Ok (view (part l ((pos / 2 ^ bits) mod 3)) (pos mod 2 ^ bits), pos mod 2 ^ bits).
+Proof. intros Htl Hb Hp. unfold sel, term_offset_of_pos, Image.bits_of. rewrite Htl.
+  rewrite land_mask by lia. rewrite Z.log2_pow2 by lia.
+  pose proof (pow2_pos bits ltac:(lia)) as H2.
+  assert (Hq : 0 <= pos / 2 ^ bits) by (apply Z.div_pos; lia).
+  assert (Hm : 0 <= (pos / 2 ^ bits) mod 3 < 3) by (apply Z.mod_pos_bound; lia).
+  assert (Hi : index_by_position pos bits = (pos / 2 ^ bits) mod 3).
+  { unfold index_by_position, shr64, PARTITION_COUNT, GenConsts.PARTITION_COUNT. rewrite rem3_nonneg by assumption.
+    apply wrap32_id. unfold in_i32, two31. lia. }
+  rewrite Hi. unfold PARTITION_COUNT, GenConsts.PARTITION_COUNT.
+  assert (Hc : (0 <=? (pos / 2 ^ bits) mod 3) && ((pos / 2 ^ bits) mod 3 <? 3) = true) by lia.
+  rewrite Hc. reflexivity. Qed.
+
 Lemma read_loop_prefix cap limit : forall fs off n, frames_pos fs ->
   exists q, (q <= length fs)%nat /\
     read_loop cap limit fs off n =
@@ -379,14 +396,14 @@ Proof. induction fs as [|f r IH]; intros off n Hp; rewrite read_loop_eq.
 Lemma view_nil off : view [] off = []. Proof. reflexivity. Qed.
 
 Lemma poll_spec l n off F pend k j im limit :
-  log_rep l n off F pend k -> cursor_rep l F im k j -> n < two31 - 1 ->
+  log_rep l n off F pend k -> cursor_rep l F im k j ->
   (boff F k j < l_tlen l \/ (k = n /\ boff F n j = l_tlen l /\ off = l_tlen l /\ pend = None /\ skipn j (F n) = [])) ->
   exists j' ws im',
     let ds := data_of (place (boff F k j) (firstn (j' - j) (skipn j (F k)))) in
     image_poll l im limit = Ok (Ok (Z.of_nat (length ds)), ds, ws, im') /\
     (j <= j' <= length (F k))%nat /\ cursor_rep l F im' k j' /\ im_session im' = im_session im /\
     (0 < limit -> im_pos im' = im_pos im -> k = n /\ skipn j (F n) = []).
-Proof. intros Hlr Hcr Hlast Hnorm. destruct Hcr as [Hj Hpos Hopen].
+Proof. intros Hlr Hcr Hnorm. destruct Hcr as [Hj Hpos Hopen].
   destruct (lr_tl _ _ _ _ _ _ Hlr) as (bits & Hbt & Hbits). pose proof (pow2_pos bits ltac:(lia)) as H2.
   pose proof (lr_klo _ _ _ _ _ _ Hlr) as [Hk1 Hk2]. pose proof (lr_n _ _ _ _ _ _ Hlr) as Hn.
   pose proof (frames_pos_F _ _ _ _ _ _ k Hlr) as Hp.
@@ -400,7 +417,7 @@ Proof. intros Hlr Hcr Hlast Hnorm. destruct Hcr as [Hj Hpos Hopen].
     assert (Hmod : im_pos im mod 2 ^ bits = boff F k j).
     { rewrite Hpos, Hbits. symmetry. apply Z.mod_unique with k; lia. }
     assert (Hkt : 0 <= k * l_tlen l) by (rewrite Hbits; nia).
-    rewrite (sel_spec l bits (im_pos im)); [|assumption|lia|rewrite Hpos; lia|rewrite Hdiv; lia].
+    rewrite (sel_spec_any l bits (im_pos im)); [|assumption|lia|rewrite Hpos; lia].
     cbn [bind]. rewrite Hdiv, Hmod. rewrite (lr_parts _ _ _ _ _ _ Hlr k) by lia. unfold term_image.
     assert (Hview : view (pre k ++ map Committed (F k) ++ (if k =? n then pend_entries pend else [])) (boff F k j) = skipn j (F k)).
     { pose proof (view_at (pre k) (F k) (if k =? n then pend_entries pend else []) (length (F k)) j) as V.
@@ -440,7 +457,7 @@ Proof. intros Hlr Hcr Hlast Hnorm. destruct Hcr as [Hj Hpos Hopen].
     assert (Hpn : im_pos im = (n + 1) * 2 ^ bits) by (rewrite Hpos, Hb, Hbits; ring).
     assert (Hdiv : im_pos im / 2 ^ bits = n + 1) by (rewrite Hpn; apply Z.div_mul; lia).
     assert (Hmod : im_pos im mod 2 ^ bits = 0) by (rewrite Hpn; apply Z.mod_mul; lia).
-    rewrite (sel_spec l bits (im_pos im)); [|assumption|lia|rewrite Hpn; nia|rewrite Hdiv; unfold two31 in *; lia].
+    rewrite (sel_spec_any l bits (im_pos im)); [|assumption|lia|rewrite Hpn; nia].
     cbn [bind]. rewrite Hdiv, Hmod. rewrite (lr_next _ _ _ _ _ _ Hlr Ho). rewrite view_nil.
     unfold term_read. rewrite read_loop_eq.
     exists j. rewrite Nat.sub_diag. cbn [firstn place data_of filter length]. eexists. eexists.
